@@ -21,6 +21,11 @@ CLAIMS = {
         text="Machine-checked over the whole finite domain: each base predicate equals its specification class (minus explicitly recorded findings), derived predicates are the documented unions, base classes are pairwise disjoint. The truth table is obtained by executing the real predicates on every opcode, so the tie is exhaustive.",
         note="Trusted: Lean kernel + standard axioms, extractor (exhaustive execution), Reference/SpecClass.lean authored from the SPIR-V specification's definitions. The Builder-ends-block clause is decided with the builder method table under C06.",
         ref="DESIGN.md §8 C16, §7.3"),
+    "C19": dict(
+        technique="Lean 4 theorems by induction over operation histories on a hand-written model of Storage (arbitrary lawless equality), tied to the real Storage<T> by a differential line-protocol harness",
+        text="Machine-checked for every element type, every Boolean equality (no laws assumed) and every finite history: appends return the old length and a fresh token, storage only grows by suffixes so earlier tokens keep their values, fetch_or_append returns the first equal element's index or appends, length = initial + number of appending operations. The 25-line model is tied to sr/storage.rs by exhaustive histories up to length 4 over an irreflexive, asymmetric equality plus seeded long histories (also on f32 with NaNs), and the property is also evaluated directly on the implementation's answers.",
+        note="Trusted: Lean kernel + standard axioms; hand model Rspirv/Model/Storage.lean and its differential tie (as good as its generators); Vec semantics; storage below 2^32 elements (u32 index).",
+        ref="DESIGN.md §8 C19"),
 }
 
 
